@@ -1,4 +1,4 @@
-// @unit id=v_recv props=C03,C09,C13,C01,C06,C07,C08,C14,C15,C18 tier=quick rlimit=60
+// @unit id=v_recv props=C03,C09,C13,C01,C06,C07,C08,C14,C15,C17,C18 tier=quick rlimit=60
 // Verus contracts on the real bodies of src/proto/streams/recv.rs, extracted on every run.
 //   level (connection or stream) = (window, available, in_flight):  window = credit the peer still has,
 //   available = window + released-but-unannounced, in_flight = handed out and not released.
@@ -68,8 +68,23 @@ impl RStore {
     { unimplemented!() }
 }
 
-pub struct Counts { pub tag: u8 }
+pub struct Counts { pub num_remote_reset_streams: usize, pub max_remote_reset_streams: usize, pub tag: u8 }
 impl Counts {
+    //@extract src/proto/streams/counts.rs Counts::max_remote_reset_streams
+    //@ret r
+    //@spec     ensures r == self.max_remote_reset_streams,
+    //@end
+
+    //@extract src/proto/streams/counts.rs Counts::can_inc_num_remote_reset_streams
+    //@ret r
+    //@spec     ensures r == (self.num_remote_reset_streams < self.max_remote_reset_streams),
+    //@end
+
+    //@extract src/proto/streams/counts.rs Counts::inc_num_remote_reset_streams
+    //@spec     requires old(self).num_remote_reset_streams < old(self).max_remote_reset_streams,
+    //@spec     ensures *final(self) == (Counts { num_remote_reset_streams: (old(self).num_remote_reset_streams + 1) as usize, ..*old(self) }),
+    //@end
+
     /// Counts::release_data_frame (DATA-frame overhead budget): Kani harness counts_data_frame_budget
     #[verifier::external_body]
     pub fn release_data_frame(&mut self, payload_len: usize) { unimplemented!() }
@@ -303,6 +318,47 @@ impl Recv {
     //@spec             r is Ok && final(stream).pending_recv@ == old(stream).pending_recv@.push(Event::Trailers(frame.fields))
     //@spec             && *final(stream) == (Stream { state: final(stream).state, pending_recv: final(stream).pending_recv, recv_task: None, ..*old(stream) })
     //@spec             && final(stream).state.inner == old(stream).state.after_recv_end_stream()->Some_0,
+    //@end
+
+    // ---- teardown from outside (C07: when a stream or the connection ends, EVERY task waiting on the stream is woken —
+    // the sender (capacity / reset), the receiver (response, body) and the push-promise waiter — and the state records
+    // the reason; C17/C18: streams reset by the peer before the application accepted them are limited)
+    //@extract src/proto/streams/recv.rs Recv::recv_eof
+    //@spec     ensures
+    //@spec         *final(self) == *old(self),
+    //@spec         *final(stream) == (Stream { state: final(stream).state, send_task: None, recv_task: None, push_task: None, ..*old(stream) }),
+    //@spec         final(stream).state.inner == old(stream).state.after_teardown(Error::Io),
+    //@end
+
+    //@extract src/proto/streams/recv.rs Recv::handle_error
+    //@subst err: &proto::Error=>err: &Error
+    //@spec     ensures
+    //@spec         *final(self) == *old(self),
+    //@spec         *final(stream) == (Stream { state: final(stream).state, send_task: None, recv_task: None, push_task: None, ..*old(stream) }),
+    //@spec         final(stream).state.inner == old(stream).state.after_teardown(*err),
+    //@end
+
+    //@extract src/proto/streams/recv.rs Recv::recv_reset
+    //@subst frame: frame::Reset=>frame: RReset
+    //@ret r
+    //@spec     ensures
+    //@spec         *final(self) == *old(self),
+    //@spec         // C18: more not-yet-accepted streams reset by the peer than the configured limit: connection error
+    //@spec         // ENHANCE_YOUR_CALM, nothing else changes
+    //@spec         (old(stream).is_pending_accept && old(counts).num_remote_reset_streams >= old(counts).max_remote_reset_streams) ==>
+    //@spec             r == Err::<(), Error>(Error::GoAway(Reason::ENHANCE_YOUR_CALM, Initiator::Library)) && *final(stream) == *old(stream) && *final(counts) == *old(counts),
+    //@spec         !(old(stream).is_pending_accept && old(counts).num_remote_reset_streams >= old(counts).max_remote_reset_streams) ==> {
+    //@spec             &&& r is Ok
+    //@spec             // counted exactly when it still sits in the accept queue
+    //@spec             &&& *final(counts) == (Counts { num_remote_reset_streams: (if old(stream).is_pending_accept { old(counts).num_remote_reset_streams + 1 } else { old(counts).num_remote_reset_streams as int }) as usize, ..*old(counts) })
+    //@spec             // C07: all three waiters are woken
+    //@spec             &&& *final(stream) == (Stream { state: final(stream).state, send_task: None, recv_task: None, push_task: None, ..*old(stream) })
+    //@spec             // C17: the peer's code is what the handles will report; a stream already closed with nothing queued keeps its cause
+    //@spec             &&& ((old(stream).state.inner is Closed && !old(stream).is_pending_send) ==> final(stream).state.inner == old(stream).state.inner)
+    //@spec             &&& (!(old(stream).state.inner is Closed && !old(stream).is_pending_send) ==> final(stream).state.inner == Inner::Closed(
+    //@spec                     if old(stream).state.recv_ended() { Cause::ErrorAfterEndStream(Error::Reset(frame.stream_id, frame.error_code, Initiator::Remote)) }
+    //@spec                     else { Cause::Error(Error::Reset(frame.stream_id, frame.error_code, Initiator::Remote)) }))
+    //@spec         },
     //@end
 
     //@extract src/proto/streams/recv.rs Recv::clear_recv_buffer
